@@ -528,6 +528,7 @@ pub fn c01(ctx: &mut Ctx) {
         // every accessor of every parser on every size: the cost is quadratic in the bound, so a smaller one here
         // (C08 / C12 / C18 run the framing oracles over sizes up to the full bound)
         run(ctx, bytes::dense_size_space(ctx.tier.pick(600, 2304)), Mode::All, false);
+        run(ctx, bytes::dense_total_space(ctx.tier.pick(1200, 2304)), Mode::All, false);
     }
     // iterator call histories ("all accessor/iterator call sequences"): every iterator reachable from the base set
     // and from every well-tiled datagram of 1..=3 menu tiles is driven through every sequence of next / nth /
